@@ -1,5 +1,5 @@
 (** * C07 — the parser builds the tree the documented grammar dictates. *)
-From PQL Require Import Model.Parser Spec.Grammar Proofs.TableFacts Proofs.ParserSoundStmt Proofs.ParserComplete Proofs.ParserCompleteStmt.
+From PQL Require Import Model.Parser Spec.Grammar Proofs.TableFacts Proofs.ParserSoundStmt Proofs.ParserComplete Proofs.ParserCompleteStmt Proofs.ParserGramStmt.
 From Coq Require Import String ZArith.
 Local Open Scope list_scope.
 Local Open Scope nat_scope.
@@ -44,6 +44,17 @@ Proof.
   rewrite E1 in E2. injection E2 as E. exact E.
 Qed.
 Print Assumptions C07_grammar_unambiguous.
+
+(** conversely, every program Parse returns is a program of the grammar ... *)
+Theorem C07_accepted_is_grammar : forall s ss, parse s = ParseOk ss -> gprog ss = true.
+Proof. exact parse_gram. Qed.
+Print Assumptions C07_accepted_is_grammar.
+
+(** ... so Parse is characterised exactly: it accepts the sources whose token sequence stands for a
+    program of the grammar, and returns that program (unique by [C07_grammar_unambiguous]) *)
+Theorem C07_parse_characterised : forall s ss, parse s = ParseOk ss <-> (toks_prog ss (scan s) /\ gprog ss = true).
+Proof. exact parse_characterised. Qed.
+Print Assumptions C07_parse_characterised.
 
 (** the hypotheses are satisfiable: a program mixing every precedence level, `in`, signs, an index,
     a call, sort flags, a join and two statements is accepted, is a program of the grammar, and
